@@ -45,7 +45,7 @@ def check(pid, tier, replay=None):
         print(("VIOLATION property=%s replay=%s" % (pid, replay)) if rej else "replay: contract accepts")
         return 1 if rej else 0
     if pid == "C02":
-        wl, masks = (3, 5) if quick else (30, 16)
+        wl, masks = (3, 5) if quick else (12, 10)
     elif pid == "C03":
         wl, masks = (5, 1) if quick else (40, 1)
     else:
